@@ -16,7 +16,12 @@ HOSTILE_TEXT = ["", "x", "{", "[]", "null", "{}", '{"a": 1}', '[1, 2]', '"str"',
                 "not json", "é中", "x" * 3000, "1", "true", '{"widget": "TextBox", "alignment": "left"}',
                 '{"included": ["a"]}', '{"text": "rec.a == 1"}', '["L", 1]', "rec.a ==", "$a +", "a,b,c", "*",
                 '{"name": "N", "tableId": "Data1", "lookupColId": "a"}', "\x00", "  ", '{"parsed": 1}',
-                '[{"x": null}]', '{"choices": ["a"], "choiceOptions": {}}', '{"dropdownCondition": {"text": "x"}}']
+                '[{"x": null}]', '{"choices": ["a"], "choiceOptions": {}}', '{"dropdownCondition": {"text": "x"}}',
+                # comment bodies (_grist_Cells.content), as clients of various ages wrote them
+                '{"text": "hi", "timeCreated": null, "timeUpdated": null, "resolved": null}',
+                '{"text": "hi", "timeCreated": 1700000000000, "timeUpdated": 1700000000500, "resolved": true}',
+                '{"timeCreated": "yesterday", "resolved": "no"}', '{"timeCreated": [1], "timeUpdated": {}}',
+                '{"timeCreated": 1e400}', '{"timeCreated": true, "timeUpdated": 12.5}', '{"timeUpdated": null}']
 
 
 def schema_at_version(v):
